@@ -342,7 +342,43 @@ func describe(l rig.Layout, content []int) []string {
 // locally minimal witness (no clause can be reset to its default and no row removed with
 // the violation persisting). Non-minimal cases are counted, not reported: each of them has
 // a smaller violating case in the enumerated universe, which is reported itself.
-var violSet sync.Map // caseKey -> true for every case confirmed violating with a fresh plan
+// boundedSet is a set of 64-bit hashes of case keys with a hard size limit: what does not
+// fit is simply not remembered (the caller then re-runs the sub-case instead of looking it
+// up), so the memory of a run does not grow with the number of violating cases.
+type boundedSet struct {
+	mu  sync.Mutex
+	m   map[uint64]struct{}
+	max int
+}
+
+func hashKey(k string) uint64 {
+	h := uint64(14695981039346656037)
+	for i := 0; i < len(k); i++ {
+		h ^= uint64(k[i])
+		h *= 1099511628211
+	}
+	return h
+}
+
+func (s *boundedSet) Store(k string, _ bool) {
+	s.mu.Lock()
+	if s.m == nil {
+		s.m = map[uint64]struct{}{}
+	}
+	if len(s.m) < s.max {
+		s.m[hashKey(k)] = struct{}{}
+	}
+	s.mu.Unlock()
+}
+
+func (s *boundedSet) Load(k string) (bool, bool) {
+	s.mu.Lock()
+	_, ok := s.m[hashKey(k)]
+	s.mu.Unlock()
+	return ok, ok
+}
+
+var violSet = &boundedSet{max: 2000000} // cases confirmed violating with a fresh plan
 
 func caseKey(c Case) string { return fmt.Sprint(c.Layout, c.Q, c.Content) }
 
@@ -602,7 +638,9 @@ type item struct {
 
 func main() {
 	gx.Quiet()
-	debug.SetGCPercent(800)
+	// allocation-heavy, small live heap: a relaxed collector, but a hard ceiling
+	debug.SetGCPercent(300)
+	debug.SetMemoryLimit(5 << 30)
 	if pf := os.Getenv("VERIF_PROF"); pf != "" {
 		f, _ := os.Create(pf)
 		pprof.StartCPUProfile(f)
@@ -683,19 +721,26 @@ func main() {
 			entries = append(entries, entry{l, 2, 3, 0})
 		}
 	} else {
+		// thorough = the quick plan + every layout of 1-4 slices x 1-4 tables for every rule
+		// type (<=2 deviations; the layouts quick does not have on contents of <=2 rows),
+		// 4-row contents on mod-2x2 and a second full-grammar layout on small contents.
+		// The volume is fixed (about twice the quick tier), not cut by the clock.
+		quickSet := map[string]bool{"mod-2x2": true, "hash-2x1": true, "hash-3x1": true, "mod-1x4": true, "mod-4x1": true,
+			"range-2x1": true, "range-2x2": true, "date_month-2x1": true, "date_month-2x2": true, "mycat_mod-2x1": true, "mycat_mod-2x2": true}
+		entries = append(entries, entry{rig.Layout{Rule: "mod", Slices: 2, Per: 2}, 3, 3, 0},
+			entry{rig.Layout{Rule: "mod", Slices: 2, Per: 2}, 2, 4, 4})
 		for _, rule := range []string{"hash", "mod", "range", "date_month", "mycat_mod"} {
 			for s := 1; s <= 4; s++ {
 				for p := 1; p <= 4; p++ {
 					l := rig.Layout{Rule: rule, Slices: s, Per: p}
 					switch {
-					case rule == "mod" && s == 2 && p == 2:
-						entries = append(entries, entry{l, 3, 3, 0}, entry{l, 2, 4, 4}, entry{l, 4, 2, 0})
-					case s == 2 && p == 2:
-						entries = append(entries, entry{l, 3, 3, 0})
-					case rule == "hash" && s == 3 && p == 1:
-						entries = append(entries, entry{l, 2, 4, 0})
-					default:
+					case l.Name() == "mod-2x2":
+					case l.Name() == "hash-3x1":
+						entries = append(entries, entry{l, 2, 3, 0}, entry{l, 3, 2, 0})
+					case quickSet[l.Name()]:
 						entries = append(entries, entry{l, 2, 3, 0})
+					default:
+						entries = append(entries, entry{l, 2, 2, 0})
 					}
 				}
 			}
@@ -736,7 +781,9 @@ func main() {
 	for qi, q := range queries {
 		d := deviations(q)
 		for ei, e := range entries {
-			if d <= e.dev && !(e.dev == 4 && d < 4) {
+			// an entry that repeats a layout with a deeper grammar on smaller contents only
+			// adds the deeper queries
+			if d <= e.dev && !(e.dev == 4 && d < 4) && !(e.dev == 3 && e.rows == 2 && d < 3) {
 				items = append(items, citem{int32(qi), int16(ei)})
 			}
 		}
@@ -993,8 +1040,8 @@ func main() {
 	var plan []string
 	for _, e := range entries {
 		x := fmt.Sprintf("%s: <=%d deviations (%d queries) x contents of %d..%d rows", e.l.Name(), e.dev, nQueriesAt[e.dev], e.minRows, e.rows)
-		if e.dev == 4 {
-			x = fmt.Sprintf("%s: exactly 4 deviations (%d queries) x contents of <=%d rows", e.l.Name(), nQueriesAt[4]-nQueriesAt[3], e.rows)
+		if e.dev == 3 && e.rows == 2 {
+			x = fmt.Sprintf("%s: exactly 3 deviations (%d queries) x contents of <=%d rows", e.l.Name(), nQueriesAt[3]-nQueriesAt[2], e.rows)
 		}
 		plan = append(plan, x)
 	}
